@@ -28,6 +28,41 @@ Theorem heap_pop_conserves : forall (A : Type) (less : A -> A -> bool) (d : A) (
 Proof. exact heap_pop_perm. Qed.
 Print Assumptions heap_pop_conserves.
 
+(** The faithful mergeIter loop (init primes one record per source; Next pops the minimum and refills from the same
+    source; container/heap's exact up / down) on sources that end regularly: *)
+From LogQLV Require Import Proofs.HeapOrderP Proofs.MergeOrderP.
+From Coq Require Import Sorted ZArith.
+
+(** every record of every source is delivered exactly once, and nothing else *)
+Theorem merge_perm : forall (R : Type) (ts : R -> Z) (dflt : R) (lists : list (list R)),
+  Permutation (map snd (fst (merge_all ts dflt (clean_srcs R lists)))) (concat lists).
+Proof. exact merge_perm_lemma. Qed.
+Print Assumptions merge_perm.
+
+(** each source's records keep their own order, are tagged with the source's index, and the run ends without error flag *)
+Theorem merge_keeps_source_order : forall (R : Type) (ts : R -> Z) (dflt : R) (lists : list (list R)),
+  let r := merge_all ts dflt (clean_srcs R lists) in
+  snd r = false /\ forall k, of_src R k (fst r) = nth k lists [].
+Proof. exact merge_keeps_source_order_lemma. Qed.
+Print Assumptions merge_keeps_source_order.
+
+(** if every source is in time order (ties allowed), the merged stream is in time order *)
+Theorem merge_sorted : forall (R : Type) (ts : R -> Z) (dflt : R) (lists : list (list R)),
+  Forall (StronglySorted (tle R ts)) lists -> StronglySorted (etle R ts) (fst (merge_all ts dflt (clean_srcs R lists))).
+Proof. exact merge_sorted_lemma. Qed.
+Print Assumptions merge_sorted.
+
+(** container/heap keeps the heap property (any [less] whose negation is transitive and total): the root is a minimum *)
+Theorem heap_push_keeps_order : forall (A : Type) (less : A -> A -> bool) (d : A),
+  (forall x y z, le A less x y -> le A less y z -> le A less x z) -> (forall x y, le A less x y \/ le A less y x) ->
+  forall h x, heap_ok A less d h -> heap_ok A less d (heap_push less d h x).
+Proof. exact heap_push_ok. Qed.
+Theorem heap_pop_returns_min : forall (A : Type) (less : A -> A -> bool) (d : A),
+  (forall x y z, le A less x y -> le A less y z -> le A less x z) -> (forall x y, le A less x y \/ le A less y x) ->
+  forall h x h', heap_ok A less d h -> heap_pop less d h = Some (x, h') -> heap_ok A less d h' /\ forall y, In y h' -> le A less x y.
+Proof. exact heap_pop_ok. Qed.
+Print Assumptions heap_pop_returns_min.
+
 (** non-vacuity / concrete run of the faithful model: three sources with ties *)
 From LogQLV Require Import Base.Bytes.
 Example merge_example :
